@@ -185,7 +185,7 @@ class DaemonObject(object):
             return next(stream)
         except Exception:
             # in case of error (or StopIteration!) the stream is removed
-            del self.daemon.streaming_responses[streamId]
+            self.daemon.streaming_responses.pop(streamId, None)   # housekeeping may have removed it in the meantime
             raise
 
     def close_stream(self, streamId):
